@@ -1,4 +1,188 @@
 #!/venv/bin/python
-"""Self-tests of the machinery (placeholder until determinism/model tests land)."""
+"""Self-tests of the machinery (run by MANIFEST.setup_cmd and on demand).
+
+1. models: FCA model vs two differently written brute forces; ordered-table
+   model vs hand-written expectations from the docstrings; reference codecs vs
+   the repository's examples/ files and vs each other.
+2. determinism: the same plans executed twice in forked children, in fresh
+   interpreters under other PYTHONHASHSEED values (the harness must be
+   hash-stable; with the set-order seam installed even the library's set
+   orders are), and with 1 vs several workers -> identical transcript digests.
+
+Exit 0 = all good, 2 = the machinery is broken (never 1: this is no property check).
+"""
+
+import json
+import os
+import random
+import subprocess
 import sys
-sys.exit(0)
+
+HERE = os.path.dirname(os.path.dirname(os.path.abspath(__file__)))
+sys.path.insert(0, HERE)
+
+from sim import core  # noqa: E402
+
+
+def fail(msg):
+    print('SELFTEST-FAILED', msg)
+    sys.exit(2)
+
+
+def test_fca_model():
+    from sim.refmodel_fca import FCA, all_concepts_bruteforce
+    rng = random.Random(12345)
+    for it in range(300):
+        n, m = rng.randint(1, 6), rng.randint(1, 6)
+        dens = rng.choice([.2, .5, .8])
+        rows = [sum((rng.random() < dens) << j for j in range(m)) for _ in range(n)]
+        f = FCA(n, m, rows)
+        if f.concepts() != all_concepts_bruteforce(f):
+            fail(f'FCA model concepts differ from brute force on {rows}')
+        up = [f.upper_covers(k) for k in range(len(f.concepts()))]
+        if up != f.covers_by_definition():
+            fail(f'FCA model covers differ from the definition on {rows}')
+        for k, (e, i) in enumerate(f.concepts()):
+            if f.intent(e) != i or f.extent(i) != e:
+                fail('not a concept')
+            if sorted(f.upset(k)) != sorted(j for j, (g, _) in enumerate(f.concepts()) if g & e == e):
+                fail('upset')
+    # hand-checked example: the 2x2 "man/woman" context
+    f = FCA(2, 2, [0b01, 0b10])
+    if f.concepts() != [(0, 3), (1, 1), (2, 2), (3, 0)]:
+        fail(f'2x2 example: {f.concepts()}')
+    d = f.documented_dict(['man', 'woman'], ['male', 'female'])
+    want = {'objects': ('man', 'woman'), 'properties': ('male', 'female'), 'context': [(0,), (1,)],
+            'lattice': [((), (0, 1), (1, 2), ()), ((0,), (0,), (3,), (0,)), ((1,), (1,), (3,), (0,)),
+                        ((0, 1), (), (), (1, 2))]}
+    if d != want:
+        fail(f'documented dict of the 2x2 example: {d}')
+
+
+def test_table_model():
+    from sim.refmodel_table import Table, Rejected
+    t = Table.fromtriple(['Mr. Praline', 'parrot'], ['alive', 'dead'], [(True, False), (False, True)])
+    t.setitem('Mr. Praline', 'dead', True)
+    t.rename_object('Mr. Praline', 'Mr. Cleese')
+    if t.triple() != (('Mr. Cleese', 'parrot'), ('alive', 'dead'), [(True, True), (False, True)]):
+        fail(f'table model rename: {t.triple()}')
+    t.add_object('a', ['x', 'dead'])
+    if t.props != ['alive', 'dead', 'x'] or ('a', 'x') not in t.cells:
+        fail('table model add_object')
+    t.set_object('a', ['alive'])
+    if [c for c in sorted(t.cells) if c[0] == 'a'] != [('a', 'alive')]:
+        fail('table model set_object')
+    if t.remove_empty_properties() != ['x']:
+        fail('table model remove_empty_properties')
+    try:
+        t.remove_object('nobody')
+        fail('table model accepted unknown name')
+    except Rejected:
+        pass
+    u = Table.fromtriple(['a', 'b'], ['p'], [(True,), (False,)])
+    v = Table.fromtriple(['b', 'c'], ['p', 'q'], [(True, False), (True, True)])
+    if u.conflicts(v) != [('b', 'p')]:
+        fail('table model conflicts')
+    w = u.union(v, True)
+    if w.triple() != (('a', 'b', 'c'), ('p', 'q'), [(True, False), (True, False), (True, True)]):
+        fail(f'table model union {w.triple()}')
+    if u.take(['b', 'a'], None, True).objs != ['b', 'a'] or u.take(['b', 'a'], None, False).objs != ['a', 'b']:
+        fail('table model take')
+    if u.transposed().transposed().key() != u.key() or u.inverted().inverted().key() != u.key():
+        fail('table model involutions')
+
+
+def test_codecs():
+    from sim import refcodec
+    core.use_repo()
+    import concepts
+    ex = os.path.join(core.REPO, 'examples')
+    for name, frmat, reader in (('liveinwater.cxt', 'cxt', refcodec.read_cxt),
+                                ('liveinwater.csv', 'csv', refcodec.read_csv),
+                                ('liveinwater.txt', 'table', refcodec.read_table),
+                                ('digits.cxt', 'cxt', refcodec.read_cxt),
+                                ('vowels.csv', 'csv', refcodec.read_csv)):
+        path = os.path.join(ex, name)
+        if not os.path.exists(path):
+            continue
+        with open(path, encoding='utf-8', newline='') as f:
+            o, p, b = reader(f.read())
+        c = concepts.Context.fromfile(path, frmat=frmat, encoding='utf-8')
+        if (tuple(o), tuple(p), [tuple(r) for r in b]) != (c.objects, c.properties, c.bools):
+            fail(f'reference reader disagrees with the library on examples/{name}')
+    objs, props, bools = ['a b', 'c'], ['x', 'y.z', 'w'], [(True, False, False), (False, False, True)]
+    for style in ('left', 'center', 'right', 'wide'):
+        if refcodec.read_table(refcodec.write_table(objs, props, bools, style=style)) != (objs, props, bools):
+            fail(f'reference table codec does not round-trip ({style})')
+    if refcodec.read_cxt(refcodec.write_cxt(objs, props, bools)) != (objs, props, bools):
+        fail('reference cxt codec does not round-trip')
+    for kw in ({}, {'as_int': True}, {'quote_all': True}, {'delimiter': '\t'}):
+        text = refcodec.write_csv(['a,"b"', 'c\nd'], props, bools, **kw)
+        if refcodec.read_csv(text, delimiter=kw.get('delimiter', ',')) != (['a,"b"', 'c\nd'], props, bools):
+            fail(f'reference csv codec does not round-trip {kw}')
+    if refcodec.read_index_rows('0 2\n\n1\n') != [(0, 2), (), (1,)]:
+        fail('reference index-row reader')
+
+
+def _plans(n):
+    from sim import driver
+    plans = []
+    for world, gens in (('D', [{}]), ('L', [{'focus': 'C01'}, {'focus': 'C09'}, {'focus': 'C05'}]),
+                        ('S', [{'focus': 'C11'}, {'focus': 'C12'}])):
+        mod = driver.world_module(world)
+        for g in gens:
+            for i in range(n):
+                plan = mod.generate(core.rng_for(4242, 'selftest' + world + g.get('focus', ''), i), 4242, i, 'quick', **g)
+                plans.append(plan)
+    return plans
+
+
+PROPS = {'D': ['C13', 'C14'], 'L': ['C01', 'C02', 'C05', 'C09', 'C10'], 'S': ['C11', 'C12']}
+
+
+def digest_of(arg):
+    from sim import driver
+    res = driver.run_plan(arg)
+    return {'digest': res['digest'], 'viol': res['viol'], 'sched': res['sched'], 'evals': res['evals']}
+
+
+def test_determinism(n):
+    from sim import driver
+    plans = _plans(n)
+    args = [{'plan': p, 'props': PROPS[p['world']], 'known': driver.load_known()} for p in plans]
+    a = core.parallel_map('selftest.selftest', 'digest_of', args, workers=8, timeout=300)
+    b = core.parallel_map('selftest.selftest', 'digest_of', args, workers=3, timeout=300)
+    for p, x, y in zip(plans, a, b):
+        if x != y:
+            fail(f'same plan, two executions, different results: world {p["world"]} run {p["run"]}: {x} vs {y}')
+    bad = [(p['world'], p['run'], x['viol']) for p, x in zip(plans, a) if x['viol']]
+    if bad:
+        print('note: selftest plans with violations on this tree:', bad[:3])
+    # fresh interpreters under other harness hash seeds; plans with the set-order seam or without any
+    # hash-order dependence must give the very same transcript
+    sample = [(p, x) for p, x in zip(plans, a)][::max(1, len(plans) // 12)]
+    for hs in (1, 987654321):
+        for p, x in sample:
+            r = driver.run_fresh(p, PROPS[p['world']], driver.load_known(), hashseed=hs)
+            if r['digest'] != x['digest']:
+                fail(f'transcript of world {p["world"]} run {p["run"]} depends on the harness PYTHONHASHSEED ({hs})')
+    return len(plans)
+
+
+def main():
+    quick = '--quick' in sys.argv
+    core.ensure_env()
+    test_fca_model()
+    test_table_model()
+    test_codecs()
+    n = test_determinism(6 if quick else 40)
+    print(f'selftest ok: models, codecs, determinism over {n} plans x (2 worker counts + 2 foreign hash seeds)')
+    return 0
+
+
+if __name__ == '__main__':
+    try:
+        sys.exit(main())
+    except core.HarnessError as e:
+        print('SELFTEST-FAILED harness error:', e)
+        sys.exit(2)
